@@ -201,8 +201,6 @@ func verifMerge(w http.ResponseWriter, r *http.Request) {
 	full := r.URL.Query().Get("full") == "1"
 	atomic.AddInt32(&verifBusy, 1)
 	defer atomic.AddInt32(&verifBusy, -1)
-	prevGlobal := immutable.EnableMergeOutOfOrder
-	defer func() { immutable.EnableMergeOutOfOrder = prevGlobal }()
 	shards, release := verifShards(e, r.URL.Query().Get("db"))
 	defer release()
 	n := 0
